@@ -25,7 +25,7 @@ func perturbArgs(r *rng.R, args []cty.Value) ([]cty.Value, string) {
 	}
 	for k, n := 0, r.Intn(3); k < n; k++ {
 		i := r.Intn(len(out))
-		switch r.Intn(7) {
+		switch r.Intn(9) {
 		case 0:
 			out[i] = cty.NullVal(out[i].Type())
 			kind = "null"
@@ -44,9 +44,32 @@ func perturbArgs(r *rng.R, args []cty.Value) ([]cty.Value, string) {
 		case 5:
 			out[i] = gv.Weaken(r, out[i], 40, false)
 			kind = "unknown-deep"
-		default:
+		case 6:
 			out[i] = cty.NullVal(cty.DynamicPseudoType)
 			kind = "null-dynamic"
+		default: // an unknown that says a lot about itself: exact length, prefix, bounds
+			t := out[i].Type()
+			recovered(func() {
+				switch {
+				case t.IsCollectionType():
+					n := r.Intn(4)
+					if out[i].IsKnown() && !out[i].IsNull() && r.Bool() {
+						n = out[i].LengthInt()
+					}
+					if r.Bool() {
+						out[i] = cty.UnknownVal(t).Refine().CollectionLength(n).NewValue() // may still be null: stays unknown
+					} else {
+						out[i] = cty.UnknownVal(t).Refine().NotNull().CollectionLength(n).NewValue()
+					}
+				case t == cty.String:
+					out[i] = cty.UnknownVal(t).Refine().NotNull().StringPrefixFull("ab").NewValue()
+				case t == cty.Number:
+					out[i] = cty.UnknownVal(t).Refine().NotNull().NumberRangeInclusive(cty.NumberIntVal(1), cty.NumberIntVal(1)).NewValue()
+				default:
+					out[i] = cty.UnknownVal(t).RefineNotNull()
+				}
+			})
+			kind = "unknown-refined"
 		}
 	}
 	return out, kind
@@ -324,6 +347,18 @@ func genC12(c *Ctx, r *rng.R, i int) {
 			continue
 		}
 		c12Weak(c, fn, args, wa, rk)
+	}
+	for k := range args { // a collection argument replaced by an unknown of exactly its length
+		if t := args[k].Type(); t.IsCollectionType() && args[k].IsKnown() && !args[k].IsNull() && r.Chance(50) {
+			wa := append([]cty.Value{}, args...)
+			wa[k] = cty.UnknownVal(t).Refine().NotNull().CollectionLength(args[k].LengthInt()).NewValue()
+			if wa[k].IsKnown() { // a zero length collapses to the known empty collection
+				continue
+			}
+			if gv.Admits(wa[k], args[k]) == "" {
+				c12Weak(c, fn, args, wa, rk)
+			}
+		}
 	}
 	if len(args) > 1 { // one argument alone replaced by an unrefined (or prefix-refined) typed unknown
 		k := r.Intn(len(args))
